@@ -294,7 +294,27 @@ mod string_arithmetic {
     number_impl!(checked_add as Add, add);
     number_impl!(checked_sub as Sub, sub);
     number_impl!(checked_mul as Mul, mul);
-    number_impl!(bitshift checked_shl as Shl, shl);
+    /// `x << n` as an exact operation. `checked_shl` only refuses a shift amount that is out of
+    /// range; bits pushed out of the value (or into its sign) are lost silently, so the result is
+    /// shifted back and compared with the operand (the interpreter's `<<` does the same).
+    trait ExactShl: Sized {
+        fn exact_shl(self, by: u32) -> Option<Self>;
+    }
+
+    macro_rules! exact_shl {
+        ($($ty:ty),+) => {
+            $(impl ExactShl for $ty {
+                fn exact_shl(self, by: u32) -> Option<Self> {
+                    self.checked_shl(by)
+                        .filter(|shifted| shifted.checked_shr(by) == Some(self))
+                }
+            })+
+        };
+    }
+
+    exact_shl!(i32, i128, u8);
+
+    number_impl!(bitshift exact_shl as Shl, shl);
     number_impl!(bitshift checked_shr as Shr, shr);
     number_impl!(fpNonzero checked_div as Div, div);
     number_impl!(fpNonzero checked_rem as Rem, rem);
